@@ -83,9 +83,9 @@ func c16CheckOrdered(c *Ctx, mods []string, engine bool) rules.CosmeticOption {
 		sorted := append([]string{}, mods...)
 		sort.Strings(sorted)
 		c.Run.Violate(ev.Violation{
-			Pred: "option-equals-all-minus-union",
-			Sig:  map[string]any{"mods": sorted},
-			What: fmt.Sprintf("%s: %q gives cosmetic option %03b, expected %03b", how, text, got, exp),
+			Pred:   "option-equals-all-minus-union",
+			Sig:    map[string]any{"mods": sorted},
+			What:   fmt.Sprintf("%s: %q gives cosmetic option %03b, expected %03b", how, text, got, exp),
 			Replay: map[string]any{"mods": mods},
 		})
 	}
@@ -174,9 +174,9 @@ func init() {
 						}
 					}
 					c.Run.Violate(ev.Violation{
-						Pred: "monotone-under-adding-modifier",
-						Sig:  map[string]any{"mods": mods, "added": c16Mods[i]},
-						What: fmt.Sprintf("adding %s to %v re-enables options: %03b -> %03b", c16Mods[i], mods, a, b),
+						Pred:   "monotone-under-adding-modifier",
+						Sig:    map[string]any{"mods": mods, "added": c16Mods[i]},
+						What:   fmt.Sprintf("adding %s to %v re-enables options: %03b -> %03b", c16Mods[i], mods, a, b),
 						Replay: map[string]any{"mods": append(mods, c16Mods[i])},
 					})
 				}
@@ -211,7 +211,7 @@ func init() {
 			gotS := len(res.ElementHiding.Specific) == 1 && res.ElementHiding.Specific[0] == ".s"
 			if gotG != wantG || gotS != wantS || (!wantG && len(res.ElementHiding.Generic) != 0) || (!wantS && len(res.ElementHiding.Specific) != 0) {
 				c.Run.Violate(ev.Violation{Pred: "flag-decoding", Sig: map[string]any{"option": o},
-					What: fmt.Sprintf("GetCosmeticResult(option=%06b): generic=%v specific=%v, expected generic present=%v specific present=%v", o, res.ElementHiding.Generic, res.ElementHiding.Specific, wantG, wantS),
+					What:   fmt.Sprintf("GetCosmeticResult(option=%06b): generic=%v specific=%v, expected generic present=%v specific present=%v", o, res.ElementHiding.Generic, res.ElementHiding.Specific, wantG, wantS),
 					Replay: map[string]any{"mods": []string{}}})
 			}
 		}
